@@ -23,6 +23,8 @@
               Gfa before / after.
      "val"    C20: one Python value assigned to a new tag or to a tag of a declared
               datatype: datatype, written characters, validation, read back.
+     "hist"   C20: one custom tag through a sequence of set / delete / set(None) /
+              set_datatype calls; a "val"-like record after every call.
      "table"  one string representative of the C18 value-class table, judged
               by Lex.tla.                                                     *)
 EXTENDS Fields, Json, IOUtils, TLC
@@ -43,7 +45,9 @@ ErrLike(r) == r \in {"Error", "FOREIGN"}
 
 -----------------------------------------------------------------------------
 (* kind "prog" *)
-ProgInit(c) == Init0(c.lvl, FALSE, [n \in {c.f} |-> Field(c.dt, c.init, 1)])   \* init: "valid" / "absent"
+\* c.lvl: the level of the stand-alone line, or of the Gfa the line was obtained from (then
+\* c.conn; c.linelvl is the level the line object itself reports)
+ProgInit(c) == Init0(LineLevelOf(c.lvl), c.conn, [n \in {c.f} |-> Field(c.dt, c.init, 1)])   \* init: "valid" / "absent"
 Matching(s, op, e) ==
   {o \in Step(s, op) : /\ o.res = e.res
                        /\ (op.k = "str" => o.mark = e.mark)
@@ -72,6 +76,7 @@ ProgRun(c, j, A) ==
             IF B # {} THEN ProgRun(c, j + 1, B)
             ELSE {ProgClause(CHOOSE s \in A : TRUE, op)}
 ProgVerdict(c) == ProgRun(c, 1, {ProgInit(c)})
+                  \cup (IF LevelPropagated(c.lvl, c.linelvl) THEN {} ELSE {"C18.level-not-propagated"})
 \* index of the first call that is rejected (0: none), for the report
 RECURSIVE ProgAt(_, _, _)
 ProgAt(c, j, A) ==
@@ -183,6 +188,55 @@ ValVerdict(c) ==
        IF a = {} \/ b = {} THEN {} ELSE a \cup b
 
 -----------------------------------------------------------------------------
+(* kind "hist": one custom tag of one line through set / delete / set(None) /
+   set_datatype; after every call the harness records what a "val" case records.
+   Fields!HStep gives the tag's state; the per-step verdict is ValVerdictAs with
+   the datatype that state prescribes.                                       *)
+\* pairs outside InScope about which the claim says nothing ("skip"): an int in an f tag and a
+\* list of small ints in an H tag (gfapy's encoders accept both; neither is the Python class the
+\* statement lists for the datatype)
+HistStatus(d, v) ==
+  IF v.k = "none" THEN "no"
+  ELSE IF InScope(d, v) THEN RepStatus(d, v)
+  ELSE IF (d = "f" /\ v.k = "int") \/ (d = "H" /\ v.k \in {"numlist", "numarray"}) THEN "skip"
+  ELSE "no"
+HistStepVerdict(lvl, h, st) ==
+  LET op == st.op
+      o == st.o
+      refused == o.set = "Error"
+      post == HStep(h, op, refused, o.dt) IN
+  IF "FOREIGN" \in {o.set, o.val, o.vf, o.w, o.s, o.rb.res} \/ o.dt = "!FOREIGN" THEN {"foreign"}
+  ELSE
+    \* a refusal is legitimate only for a value the datatype in force cannot (surely) represent
+    (IF refused /\ (op.k # "set" \/ \A d \in HDatatypes(h, op.v) : HistStatus(d, op.v) = "yes")
+     THEN {"C20.readback"} ELSE {})
+    \cup
+    (IF ~post.present THEN
+        \* the tag does not exist: not written, and no datatype unless one was declared since
+        (IF o.present \/ o.dt # (IF post.dt = "none" THEN "-" ELSE post.dt) THEN {"C20.datatype"} ELSE {})
+     ELSE
+        LET cc == [lvl |-> lvl, v |-> post.v, set |-> "ok", dt |-> o.dt, val |-> o.val, vf |-> o.vf,
+                   w |-> o.w, wchars |-> o.wchars, s |-> o.s, mark |-> o.mark, rb |-> o.rb]
+            status == HistStatus(post.dt, post.v)
+            a == ValVerdictAs(cc, post.dt, {post.dt}, TRUE)
+            b == ValVerdictAs(cc, post.dt, {post.dt}, FALSE) IN
+        (IF ~o.present THEN {"C20.datatype"} ELSE {})
+        \cup (IF status = "yes" THEN a ELSE IF status = "no" THEN b
+              ELSE IF status = "skip" \/ a = {} \/ b = {} THEN {} ELSE a \cup b))
+RECURSIVE HistRun(_, _, _)
+HistRun(c, j, h) ==
+  IF j > Len(c.steps) THEN {}
+  ELSE LET v == HistStepVerdict(c.lvl, h, c.steps[j]) IN
+       IF v # {} THEN v
+       ELSE HistRun(c, j + 1, HStep(h, c.steps[j].op, c.steps[j].o.set = "Error", c.steps[j].o.dt))
+HistVerdict(c) == HistRun(c, 1, HState(c.init.present, c.init.dt, c.init.v))
+RECURSIVE HistAt(_, _, _)
+HistAt(c, j, h) ==
+  IF j > Len(c.steps) THEN 0
+  ELSE IF HistStepVerdict(c.lvl, h, c.steps[j]) # {} THEN j
+  ELSE HistAt(c, j + 1, HStep(h, c.steps[j].op, c.steps[j].o.set = "Error", c.steps[j].o.dt))
+
+-----------------------------------------------------------------------------
 (* kind "table": the value-class table of the harness (string representatives of the C18
    fields) against the full grammar: a "valid" string must not be rejected by Lex.tla, an
    invalid one must not be accepted.                                          *)
@@ -200,7 +254,10 @@ Verdict(c) ==
     [] Kind = "edit" -> EditVerdict(c)
     [] Kind = "val" -> ValVerdict(c)
     [] Kind = "table" -> TableVerdict(c)
-Where(c) == IF Kind = "prog" THEN ProgAt(c, 1, {ProgInit(c)}) ELSE 0
+    [] Kind = "hist" -> HistVerdict(c)
+Where(c) == IF Kind = "prog" THEN ProgAt(c, 1, {ProgInit(c)})
+            ELSE IF Kind = "hist" THEN HistAt(c, 1, HState(c.init.present, c.init.dt, c.init.v))
+            ELSE 0
 
 Init == cid \in 1..Len(Cases)
 Next == UNCHANGED cid
